@@ -76,6 +76,9 @@ pub struct Case {
     pub nstate: usize,
     pub params: Vec<(f64, f64)>,
     pub speeds: Vec<f64>,
+    /// an alignment request made on the same estimator object BEFORE the speed requests (its
+    /// result is decided by C09; here it is only history that must not matter)
+    pub earlier_alignment: Option<Vec<(f64, f64)>>,
 }
 
 pub struct SpeedLaw;
@@ -100,10 +103,10 @@ impl Prop for SpeedLaw {
         "speed-law".into()
     }
     fn rule(&self) -> String {
-        "DurationEstimator::create on 1..200 generated states (means log-uniform 0.2..60, variances 1e-3..400; modes: independent | all equal (ties) | exact .5 means | floor-dominated) at speed 1 and 4 sorted speeds in [0.1,50] (log-uniform | special | near 1 | constructed rounding boundaries F1/(k+0.5) +- 0..2 ulp); oracle: d_i == max(round(mean_i),1) at speed 1, sum == max(round(F1/s), n), d_i >= 1, totals non-increasing in s. Non-trivial: a speed != 1 for which the all-ones floor or a total different from F1 occurs".into()
+        "DurationEstimator::create on 1..200 generated states (means log-uniform 0.2..60, variances 1e-3..400; modes: independent | all equal (ties) | exact .5 means | floor-dominated) at speed 1 and 4 sorted speeds in [0.1,50] (log-uniform | special | near 1 | constructed rounding boundaries F1/(k+0.5) +- 0..2 ulp), in 30 % of the eligible cases after an alignment request on the same estimator object; oracle: d_i == max(round(mean_i),1) at speed 1, sum == max(round(F1/s), n), d_i >= 1, totals non-increasing in s. Non-trivial: a speed != 1 for which the all-ones floor or a total different from F1 occurs".into()
     }
     fn tape_len(&self, _: Tier) -> usize {
-        440
+        900
     }
     fn cases(&self, tier: Tier) -> u32 {
         tier.pick(200_000, 3_000_000)
@@ -136,11 +139,36 @@ impl Prop for SpeedLaw {
             })
             .collect();
         speeds.sort_by(|a, b| a.partial_cmp(b).unwrap());
-        Case { nstate, params, speeds }
+        let earlier_alignment = if n % nstate == 0 && t.chance(0.3) {
+            let nl = n / nstate;
+            let mut cur = 0.0;
+            let mut times: Vec<(f64, f64)> = (0..nl)
+                .map(|_| {
+                    let start = cur;
+                    cur += t.uniform(0.0, 3.0 * nstate as f64);
+                    (if t.chance(0.5) { start } else { -1.0 }, if t.chance(0.6) { cur } else { -1.0 })
+                })
+                .collect();
+            if t.chance(0.6) {
+                // a trailing label without end time (model-duration fallback) after a known end
+                times[nl - 1].1 = -1.0;
+                if nl >= 2 {
+                    let k = t.below(nl - 1);
+                    times[k].1 = times[k].1.max(1.0);
+                }
+            }
+            Some(times)
+        } else {
+            None
+        };
+        Case { nstate, params, speeds, earlier_alignment }
     }
     fn check(&self, c: &Case) -> Result<Report, Failure> {
         let n = c.params.len();
         let est = DurationEstimator::new(c.params.iter().map(|(m, v)| MeanVari(*m, *v)).collect(), c.nstate);
+        if let Some(times) = &c.earlier_alignment {
+            let _ = est.create_with_alignment(times);
+        }
         let d1 = est.create(1.0);
         ensure!(d1.len() == n, "speed1-len", "speed 1: {} durations for {} states", d1.len(), n);
         for (i, ((m, _), d)) in c.params.iter().zip(&d1).enumerate() {
@@ -194,6 +222,7 @@ impl Prop for SpeedLaw {
             }
             prev_total = Some((s, total));
         }
+        rep.class_if(c.earlier_alignment.is_some(), "after-an-alignment-request-on-the-same-estimator");
         rep.class(format!("states:{}", match n { 1 => "1", 2..=10 => "2-10", 11..=60 => "11-60", _ => "61-200" }));
         Ok(rep)
     }
